@@ -174,9 +174,28 @@ def one(rep, prog, cfg):
                 vals.add(cell != tables.OTHER and (cc["lit"].lower() == cell.lower() if cc["ci"] else cc["lit"] == cell))
         if vals == {True}:
             accepts.add(cell)
-        elif vals != {False}:
+        elif vals != {False} and icmps:
             rep.fail("C14.boundary", "%s/is_start_field(%s)" % (cfg, cell if cell != tables.OTHER else "other"), isf.loc(isf.span),
                      "cannot decide the boundary predicate for this key (values %s)" % vals)
+    if not icmps:
+        # membership form: `[<constants>].contains(&f)` whose result is the function's result
+        from .. import terms
+        from ..common import const_value_of
+        for bb, t in isf.calls():
+            if any(n.endswith("<impl [T]>::contains") for n in callee_names(t)) and len(t["args"]) == 2 and t["dest"]["l"] == 0 and not t["dest"]["p"]:
+                arr = terms.strip_views(terms.term_of_local(isf, op_local(t["args"][0]))) if op_local(t["args"][0]) is not None else None
+                while isinstance(arr, tuple) and arr[0] == "unknown":
+                    break
+                needle, tr = terms.raw_source(isf, t["args"][1])
+                # the array: an aggregate of string constants (through the unsizing cast)
+                elems = None
+                for bb2, i2, s2 in isf.stmts():
+                    if s2["k"] == "assign" and s2["rv"]["k"] == "agg" and s2["rv"].get("agg") == "array":
+                        vals = [const_value_of(prog, isf, o) for o in s2["rv"]["ops"]]
+                        if all(v is not None for v in vals):
+                            elems = set(vals)
+                if elems is not None and needle == ("free", 1) and not tr:
+                    accepts = elems
     rep.check(accepts == ENTRY_STARTS, "C14.boundary", cfg + "/is_start_field set", isf.loc(isf.span),
               "entry boundaries are %s, the protocol says %s" % (sorted(accepts), sorted(ENTRY_STARTS)),
               detail={"accepts": sorted(accepts)})
